@@ -349,6 +349,10 @@ func cacheCaseBody(r *Run, rng *rand.Rand, cfg cacheCfg, nClients int, sample bo
 		s.clients = append(s.clients, &gor{name: fmt.Sprintf("c%d", i), park: make(chan struct{}), done: true})
 	}
 	ttls := []time.Duration{0, 0, 0, time.Second, 4 * time.Second, 5 * time.Second, 6 * time.Second, 9 * time.Second, 11 * time.Second, -time.Second}
+	longStall := rng.Intn(5) == 0 // some cases: TTLs of half an hour and sweeps that come hours late
+	if longStall {
+		ttls = append(ttls, 2000*time.Second, 1500*time.Second, 3600*time.Second)
+	}
 	startCall := func(ci int, kind string) {
 		g := &gor{name: fmt.Sprintf("c%d", ci), park: make(chan struct{}), busy: true}
 		s.clients[ci] = g
@@ -577,6 +581,10 @@ func cacheCaseBody(r *Run, rng *rand.Rand, cfg cacheCfg, nClients int, sample bo
 		switch {
 		case x < 8:
 			d := []time.Duration{500 * time.Millisecond, time.Second, 2500 * time.Millisecond, 3 * time.Second, 6 * time.Second}[rng.Intn(5)]
+			if longStall && rng.Intn(6) == 0 {
+				d = []time.Duration{1300 * time.Second, 3000 * time.Second, 2 * time.Hour}[rng.Intn(3)]
+				r.Count("long_tick")
+			}
 			time.Sleep(d)
 			synctest.Wait()
 			emit("tick %d", int64(d))
@@ -742,7 +750,7 @@ func oracleFinal(r *Run, s *sched, cfg cacheCfg, cache *ristretto.Cache[uint64, 
 				}
 			}
 		case "getttl":
-			if c.found && c.dur > 11*time.Second {
+			if c.found && c.dur > 3600*time.Second {
 				r.Fail("C07", fmt.Sprintf("GetTTL(%d) reports %v, larger than any ttl given", c.key, c.dur), in)
 			}
 		case "set":
@@ -750,6 +758,9 @@ func oracleFinal(r *Run, s *sched, cfg cacheCfg, cache *ristretto.Cache[uint64, 
 				r.Fail("C07", fmt.Sprintf("Set(%d) with negative ttl returned true", c.key), in)
 			}
 		}
+	}
+	if cfg.mode == "single" {
+		oracleSingle(r, calls, in)
 	}
 	// C04: callback discipline, checked after Close has returned
 	for _, c := range calls {
@@ -904,5 +915,95 @@ func streamCacheF8(r *Run) {
 	}
 	if exits[101] != 1 {
 		r.Fail("C04", fmt.Sprintf("value 101 exited %d times", exits[101]), "F8 witness history")
+	}
+}
+
+
+// oracleSingle (C06): single-client histories with room to spare, replayed sequentially
+// against a three-valued reference (surely absent / surely present with value and expiry /
+// unknown while writes are pending).  Checks: Set of a key that is neither resident nor
+// pending is visible after Wait; an overwrite of a resident key is visible at once; an
+// entry stays until overwritten, deleted or expired; Del wins after Wait.
+func oracleSingle(r *Run, calls []*callRec, in string) {
+	type st struct {
+		kind         int // 0 absent, 1 present, 2 unknown, 3 pending-new (absent now, present after Wait)
+		val          uint64
+		ttl          bool
+		expLo, expHi time.Time // the expiration instant lies in [expLo, expHi] (clock read inside the Set)
+		delWait      bool      // a Del ran while writes were pending: absent after the next Wait
+	}
+	state := map[uint64]*st{}
+	get := func(k uint64) *st {
+		if x, ok := state[k]; ok {
+			return x
+		}
+		x := &st{}
+		state[k] = x
+		return x
+	}
+	for _, c := range calls {
+		if c.endSeq == 0 {
+			continue
+		}
+		x := get(c.key)
+		surelyExpired := func(at time.Time) bool { return x.kind == 1 && x.ttl && at.After(x.expHi) }
+		surelyLive := func(at time.Time) bool { return x.kind == 1 && (!x.ttl || at.Before(x.expLo)) }
+		switch c.kind {
+		case "set":
+			if c.ttl < 0 {
+				continue
+			}
+			if !c.ok { // dropped: nothing changed (a resident key is never dropped)
+				if surelyLive(c.endT) {
+					r.Fail("C06", fmt.Sprintf("Set(%d) returned false although the key was resident", c.key), in)
+				}
+				continue
+			}
+			x.delWait = false
+			switch {
+			case surelyLive(c.endT):
+				x.val = c.val // overwrite of a resident key: immediate
+			case x.kind == 0:
+				x.kind, x.val = 3, c.val
+			default:
+				x.kind = 2
+			}
+			x.ttl = c.ttl > 0
+			x.expLo, x.expHi = c.startT.Add(c.ttl), c.endT.Add(c.ttl)
+		case "del":
+			if x.kind == 0 || x.kind == 1 {
+				x.kind = 0
+			} else {
+				x.kind = 2
+				x.delWait = true
+			}
+		case "wait":
+			for _, y := range state {
+				if y.kind == 3 {
+					y.kind = 1
+				}
+				if y.delWait {
+					y.kind, y.delWait = 0, false
+				}
+			}
+		case "get":
+			switch {
+			case surelyLive(c.endT):
+				if !c.found || c.got != x.val {
+					r.Fail("C06", fmt.Sprintf("Get(%d) = (%d,%v), the reference map holds %d", c.key, c.got, c.found, x.val), in)
+				}
+			case x.kind == 0 || surelyExpired(c.startT):
+				if c.found {
+					r.Fail("C06", fmt.Sprintf("Get(%d) found %d, the reference map holds nothing for this key", c.key, c.got), in)
+				}
+			}
+		case "getttl":
+			if x.kind == 1 && !x.ttl && !(c.found && c.dur == 0) {
+				r.Fail("C07", fmt.Sprintf("GetTTL(%d) = (%v,%v) for an entry written without TTL", c.key, c.dur, c.found), in)
+			}
+		}
+		if x.kind == 1 && x.ttl && !c.endT.Before(x.expLo) {
+			x.kind = 2 // possibly expired: still in the map until swept; a later Set may hit either path
+		}
 	}
 }
